@@ -4,6 +4,7 @@ import WtfModel.Model.NormQ
 import WtfModel.Model.Legacy0
 import WtfModel.Model.Tfidf
 import WtfModel.Model.Boosts
+import WtfModel.Model.GoSort
 import WtfModel.Gen.Constants
 import Driver.Util
 
@@ -13,7 +14,9 @@ import Driver.Util
     host <hex> | ri <cp> <lower> <foldrep> <flags> | cmd <11 fields> | idf <df> <f:>
     nq <hex> | pq <actions> <targets> <keywords> <enhanced> | ib <f:,..|-> | cb <f:,..|-> | tf none|-|<doc>:<f:>,..
        (pq / ib / cb: values of the real NLP code; answered `ok` iff the model's NLP layer yields the same values)
-    fz -|<idx>:<score>,..
+    fz -|<idx>=<score>,..
+       (fz: the matches as `fuzzy.Find` returned them, i.e. after the library's `sort.Stable`; answered `ok` iff the model of that
+        sort, `GoSort.fuzzyStable`, puts the same matches — taken in index order, as FindFromNoSort produces them — in the same order)
     search <q> <limit> <boosts> <pipelineOnly> <pipelineBoost> <useFuzzy> <thr> <useNLP> <cap> <allPlat> <platforms> <noCross>
     tokens <hex> | passes <doc> <allPlat> <platforms> <noCross> <pipelineOnly>
   domain `boosts` (same state, harness/dom_boosts.go): the MODEL's NLP layer (Model/Boosts.lean, Model/Nlp.lean)
@@ -79,15 +82,20 @@ def pairList? {α β} (s : String) (fa : String → Option α) (fb : String → 
     | [a, b] => do let x ← fa a; let y ← fb b; pure (x, y)
     | _ => none)
 
+/-- the matches of an `fz` line in index order: the order in which `FindFromNoSort` appends them (one match per target index) -/
+def byIndex (l : List (Nat × Int)) : List (Nat × Int) :=
+  l.foldl (fun acc x => let (a, b) := acc.span (fun y => y.1 ≤ x.1); a ++ x :: b) []
+
+def fmtMatches (l : List (Nat × Int)) : String :=
+  if l.isEmpty then "-" else ",".intercalate (l.map (fun (i, s) => s!"{i}={s}"))
+
 /-- the parameter set of the end-to-end theorem (`Wtf.Search.modelledTuning`, Model/Modelled.lean), with the oracle tables
-    for what stays external (idf values, the normalised query, Go's order of the fuzzy matches) and a per-query memo of the
-    modelled NLP layer (a pure cache: `c.out = Boosts.nlpOut d.ri d.nlpCmds c.nq`) -/
+    for what stays external (idf values, the normalised query) and a per-query memo of the modelled NLP layer (a pure cache:
+    `c.out = Boosts.nlpOut d.ri d.nlpCmds c.nq`).  The order of the fuzzy matches is the MODEL's (`GoSort.fuzzyStable`, the
+    transliteration of `sort.Stable` with the library's `Less`; `Wtf.C01.universal_modelled_sorted` is about exactly this
+    parameter set); Go's order (`fz` line) is only compared with it. -/
 def tuning (d : DS) : Tuning Float :=
-  let fz := fun (ms : List (Nat × Int)) =>
-    -- Go's order, accepted only if it is a permutation of the model's matches, sorted by score
-    let sameSet := d.fz.length == ms.length && d.fz.all (fun x => ms.contains x) && ms.all (fun x => d.fz.contains x)
-    let sorted := (d.fz.zip (d.fz.drop 1)).all (fun (a, b) => a.2 ≥ b.2)
-    if sameSet && sorted then d.fz else []
+  let fz := Wtf.GoSort.fuzzyStable
   -- the re-ranker is the MODEL's TF-IDF (Model/Tfidf.lean) whenever the real database has a searcher;
   -- the oracle `tf` line only says whether one exists (and is compared separately by the `tfidf` op)
   let base := modelledTuning (fun _ df => ((d.idf.find? (·.1 == df)).map (·.2)).getD 0.0) d.host d.ri (fun _ => d.nq) fz
@@ -187,7 +195,9 @@ def step (d : DS) (l : String) : DS × String :=
     | none => (d, "bad-op")
   | ["fz", v] =>
     match pairList? v natOf? intOf? with
-    | some l => ({ d with fz := l }, "ok")
+    | some l =>
+      let m := Wtf.GoSort.fuzzyStable (byIndex l)
+      ({ d with fz := l }, oracleCheck "fz" (m == l) (fmtMatches m))
     | none => (d, "bad-op")
   | ["search", q, lim, bo, po, pb, uf, thr, un, cap, ap, pls, nc] =>
     match Bytes.ofHex q, intOf? lim, pairList? bo Bytes.ofHex floatOf?, floatOf? pb, intOf? thr, intOf? cap, bytesList? pls with
